@@ -435,6 +435,11 @@ def sendGuard (v : Variant) (maxLenSend len : Nat) : Option Exc :=
   | .twisted => if 0 < maxLenSend ∧ maxLenSend < len then some .payloadExceeded else none
   | .asyncio => if len > maxLenSend then some (excOfCode WampTransport.aioSendOverLimitExc) else none
 
+/-- asyncio `PrefixProtocol.sendString(data)` called directly (the second line of defence below `send()`):
+`if l > self.max_length_send: raise ValueError("Data too big")`, else prefix + data are written -/
+def aioSendStringGuard (maxLenSend len : Nat) : Option Exc :=
+  if len > maxLenSend then some .valueError else none
+
 def send (v : Variant) (maxLenSend : Nat) (payload : Bytes) : SendOut :=
   match sendGuard v maxLenSend payload.length with
   | some e => .error e
